@@ -11,9 +11,9 @@ META = {
     "text": "OutlierDetection.tla models the outlier-detection policy as a sequential machine (UpdateClientConnState with a config and "
             "an endpoint list, call results per endpoint, virtual time, interval timer: success-rate pass, failure-percentage pass, "
             "un-ejection / multiplier pass) with exact cross-multiplied arithmetic; TLC checks for all histories of a bounded scope "
-            "(3 endpoints, 5 configurations incl. no-op, endpoint sets that remove and re-add ejected endpoints) that an endpoint is "
+            "(up to 4 endpoints, 6 configurations incl. no-op and budgets of one ejection, endpoint sets that remove and re-add ejected endpoints) that an endpoint is "
             "ejected only at an interval, only with the request volume and a failing criterion, only while the ejected share of the "
-            "current endpoints is below max_ejection_percent, is un-ejected exactly when min(base*multiplier, max(base, max)) has "
+            "current endpoints - taken before each individual ejection of the interval - is below max_ejection_percent, is un-ejected exactly when min(base*multiplier, max(base, max)) has "
             "elapsed, that a no-op config leaves nothing ejected, and that the policy's counter never under-counts (negative "
             "control: '>' instead of '>=' in the max_ejection_percent test). Every transition of a bounded scope and seeded random "
             "histories are executed on the real balancer (stub child policy, recording ClientConn, testing/synctest virtual time, "
@@ -39,7 +39,10 @@ def step_of(state_text, label):
     if name == "Advance":
         return {"a": "advance", "d": int(args)}
     if name == "Interval":
-        return {"a": "interval"}
+        # "cap": some failing endpoint was not ejected in this interval because the max_ejection_percent
+        # budget was used up by then (>= 2 simultaneous outliers, or endpoints ejected earlier)
+        gh = parse_tla_state(state_text, only={"gh"})["gh"]
+        return {"a": "interval", "cap": bool(gh.get("cap"))}
     raise Inconclusive("unknown action label " + label)
 
 
@@ -61,6 +64,8 @@ def account(ctx, tpath):
             if r["obs"]["tf"]:
                 ej += 1
     ctx.cov.setdefault("c40", {"intervals": 0, "intervals_with_ejected": 0})
+    ctx.cov["c40"].setdefault("intervals", 0)
+    ctx.cov["c40"].setdefault("intervals_with_ejected", 0)
     ctx.cov["c40"]["intervals"] += iv
     ctx.cov["c40"]["intervals_with_ejected"] += ej
     return iv, ej
@@ -73,7 +78,20 @@ def run(ctx):
     binary = ctx.go_build("internal/xds/balancer/outlierdetection", name="c40", only=r"zz_verif_c40_")
     # the graph dump is an exhaustive model check of the generation scope (all invariants are in the cfg)
     g = ctx.dump_graph("OutlierDetectionMC", ctx.pick("OutlierDetectionGen4.cfg", "OutlierDetectionGen.cfg"), workers=ctx.pick(4, 8))
-    behs = ctx.edge_cover(g, step_of, limit=ctx.pick(1200, 4000))
+    # every behaviour that ends in (or passes through) an interval where the budget bites is kept; the rest of
+    # the edge cover is sampled
+    allb = ctx.edge_cover(g, step_of, limit=None)
+    capb = [b for b in allb if any(s.get("cap") for s in b)]
+    rest = [b for b in allb if not any(s.get("cap") for s in b)]
+    ctx.rng.shuffle(capb)
+    ctx.rng.shuffle(rest)
+    ncap = ctx.pick(500, 2000)
+    behs = capb[:ncap] + rest[:ctx.pick(1000, 3000)]
+    ctx.cov["behaviours_generated"] += len(behs) - len(allb)
+    ctx.cov.setdefault("c40", {"intervals": 0, "intervals_with_ejected": 0})
+    ctx.cov["c40"]["budget_limited_behaviours"] = min(len(capb), ncap)
+    if not capb:
+        raise Inconclusive("the generation scope contains no interval in which max_ejection_percent limits the ejections")
     bpath = os.path.join(ctx.run, "beh.ndjson")
     tpath = os.path.join(ctx.run, "trace-replay.ndjson")
     write_ndjson(bpath, behs)
